@@ -10,7 +10,10 @@ RULE = ("Every decoder call on untrusted input is recorded as one event (child p
         "Timeout and Crash are not steps. Where a value is returned and the type has a complete schema the value must be a reading of the input: "
         "TL-B: TlbSem!Enc(schema, value) is a PrefixOf the input tree (bits prefix, refs prefix, recursively; verbatim cells identical; a pruned "
         "branch in the input is a wildcard), cross-checked against the value-guided walk Reads, which alone decides schemas with VarUInteger / "
-        "HashmapE (several encodings of one value); TL: TlSem's total decoder returns the same value and unread tail. Inputs: C->S per exported "
+        "HashmapE (several encodings of one value); in the thorough tier (or VERIF_C08_DEC=1) the specification's total TL-B decoder TlbDec!DecLax "
+        "also reads every such input that consists of ordinary cells: where it yields a value the library's value must be exactly that value "
+        "(dictionaries entry by entry), where it refuses the library was merely more tolerant and the prefix relation decides alone; "
+        "TL: TlSem's total decoder returns the same value and unread tail. Inputs: C->S per exported "
         "TL-B type {valid, random trees, one-mutation encodings (bit flip, truncation of root / inner cell, reference removed / duplicated, cell "
         "replaced by pruned / library / unknown exotic, extension, grafted bomb), value of another type, expansion bombs (4^9 and 2^17 unfoldings, "
         "measured in full), exotic and tiny roots}; large valid encodings laid out by the driver from the TL-B definitions (dictionaries of 24k-64k leaves "
@@ -417,6 +420,9 @@ def run(ck):
     # returned values compared with the specification's own decoding of the same input (thorough tier / VERIF_C08_DEC=1):
     # "dec" = TlbDec!DecLax returned a value and it is the library's; "dec-refuses" = the library was more tolerant than TL-B
     ck.extra["values_compared_with_TlbDec"] = dec_judged
+    ck.extra["observations"] = [{"where": "tlb/messages.go OutMsg.MsgExportDeqShort.NextWorkchain", "go": "uint32", "block.tlb": "next_workchain:int32",
+                                 "effect": "decoding never fails or differs in bits; a negative workchain is returned as a large positive number",
+                                 "suggested_patch": "work/fixes_tlb/0002-outmsg-deq-short-next-workchain-int32.patch"}]
     ck.extra["tlb_types"] = len(types)
     ck.extra["tl_targets"] = len(tltypes)
     ck.extra["helper_sites"] = sites
